@@ -20,6 +20,8 @@ def _elem(a):
     a = strip(a)
     if kind(a) == "addr":
         a = strip(a[1])
+        if kind(a) == "var":
+            return a[1], None          # a whole local object: &rj
     if kind(a) != "index" or is_int(a[2]):
         return None
     b = strip(a[1])
@@ -32,7 +34,7 @@ def _elem(a):
 
 def _guarded(f, dom, blk, arr, idx):
     """Does a branch on G(&arr[idx]) dominate block blk (same index expression, index variables not reassigned since)?"""
-    ivars = vars_in(idx)
+    ivars = vars_in(idx) if idx is not None else {arr}
     for d in dom.get(blk, ()):
         b = f.blocks[d]
         if b.cond is None or d == blk:
@@ -40,7 +42,7 @@ def _guarded(f, dom, blk, arr, idx):
         for c in calls_in(b.cond):
             if callee_name(c) in GUARDS and c[3]:
                 e = _elem(c[3][0])
-                if e and e[0] == arr and repr(strip(e[1])) == repr(strip(idx)):
+                if e and e[0] == arr and ((idx is None and e[1] is None) or (idx is not None and e[1] is not None and repr(strip(e[1])) == repr(strip(idx)))):
                     # index variables must not change on any path from the guard to the use
                     # blocks on a path from the guard to the use that does not pass the guard or the use again
                     region = f.reachable_from(d, avoid=frozenset({d, blk}))
@@ -78,7 +80,7 @@ def scan(prog):
                     if not em:
                         continue
                     g = _guarded(f, dom, b.id, em[0], em[1])
-                    out.append({"fn": f.name, "use": callee_name(e), "arr": em[0], "idx": show(em[1]), "loc": e[2], "guard": g, "file": f.file})
+                    out.append({"fn": f.name, "use": callee_name(e), "arr": em[0], "idx": show(em[1]) if em[1] is not None else "", "loc": e[2], "guard": g, "file": f.file})
     return out
 
 
